@@ -985,6 +985,147 @@ def op_x_sysinfo2magic(req):
     return {"magic": hx(x.magics.sysinfo2magic()), "python_magic_int": x.magics.PYTHON_MAGIC_INT}
 
 
+def op_x_marsh(req):
+    """C14: xdis.marsh against this host's own marshal on one plain value."""
+    x = xd()
+    v = build_shared(req["value"])
+    out = {"value": canon(v)}
+    try:
+        b = x.marsh.dumps(v)
+        out["dumps_type"] = type(b).__name__
+        try:
+            back = marshal.loads(b)
+            out["xdumps_loads"] = canon(back)
+            import io
+            bio = io.BytesIO(b)
+            marshal.load(bio)
+            out["xdumps_consumed"] = [bio.tell(), len(b)]
+        except Exception as e:
+            out["xdumps_loads_err"] = "%s: %s" % (type(e).__name__, e)
+            out["xdumps_hex"] = hx(b)[:200] if isinstance(b, (bytes, bytearray)) else repr(b)[:200]
+    except Exception as e:
+        import traceback
+        out["xdumps_err"] = "%s: %s" % (type(e).__name__, e)
+        out["xdumps_tb"] = traceback.format_exc()[-800:]
+    for k in (0, 1):
+        try:
+            b = marshal.dumps(v, k)
+        except Exception as e:
+            out["dumps%d_reject" % k] = "%s: %s" % (type(e).__name__, e)
+            continue
+        try:
+            back = x.marsh.loads(b)
+            out["xloads%d" % k] = canon(back)
+        except Exception as e:
+            import traceback
+            out["xloads%d_err" % k] = "%s: %s" % (type(e).__name__, e)
+            out["xloads%d_tb" % k] = traceback.format_exc()[-800:]
+        try:
+            import io
+            back = x.marsh.load(io.BytesIO(b))
+            out["xload%d" % k] = canon(back)
+        except Exception as e:
+            out["xload%d_err" % k] = "%s: %s" % (type(e).__name__, e)
+    return out
+
+
+def _native_dump(co):
+    d = {}
+    for a in sorted(dir(co)):
+        if a.startswith("co_"):
+            v = getattr(co, a)
+            if callable(v):
+                continue
+            d[a] = canon(v) if not isinstance(v, tuple) or not any(hasattr(e, "co_code") for e in v) else \
+                ["T", [(["code", e.co_name, id(e)] if hasattr(e, "co_code") else canon(e)) for e in v]]
+    if hasattr(co, "co_lines"):
+        d["co_lines()"] = [list(t) for t in co.co_lines()]
+    if hasattr(co, "co_positions"):
+        d["co_positions()"] = [list(t) for t in co.co_positions()]
+    return d
+
+
+def _portable_dump(p):
+    d = {}
+    for a in sorted(vars(p)):
+        if a.startswith("co_"):
+            v = getattr(p, a)
+            try:
+                d[a] = xcanon(v, False) if not isinstance(v, (tuple, list)) or not any(hasattr(e, "co_code") for e in v) else \
+                    ["T", [(["code", e.co_name, id(e)] if hasattr(e, "co_code") else xcanon(e, False)) for e in v]]
+            except Exception as e:
+                d[a] = ["?", repr(e)]
+    return d
+
+
+def op_x_c16(req):
+    """C16 on this host: native -> portable -> native for every code object of a program,
+    and replace() semantics."""
+    x = xd()
+    try:
+        top = compile(req["src"], "<c16>", "exec", 0, True)
+    except (SyntaxError, ValueError, OverflowError, RecursionError, MemoryError) as e:
+        return {"reject": "%s: %s" % (type(e).__name__, e)}
+    want_cls = x.codetype.portableCodeType(sys.version_info[:3]).__name__
+    fails = []
+    infos = []
+    for i, co in enumerate(walk_codes(top)):
+        info = {"name": co.co_name, "linetable_len": len(native_linetable(co)),
+                "exctable_len": len(getattr(co, "co_exceptiontable", b"")), "code_len": len(co.co_code)}
+        infos.append(info)
+        try:
+            p = x.codetype.codeType2Portable(co)
+        except Exception as e:
+            fails.append(["codeType2Portable-raised|%s" % type(e).__name__, "co%d %s: %s" % (i, co.co_name, e)])
+            continue
+        if type(p).__name__ != want_cls:
+            fails.append(["portable-class", "co%d: codeType2Portable gave %s, host %s wants %s" % (
+                i, type(p).__name__, ".".join(map(str, sys.version_info[:2])), want_cls)])
+        before = _portable_dump(p)
+        try:
+            n = p.to_native()
+        except Exception as e:
+            import traceback
+            fails.append(["to_native-raised|%s" % type(e).__name__, "co%d %s: %s" % (i, co.co_name, traceback.format_exc()[-400:])])
+            continue
+        if not isinstance(n, types.CodeType):
+            fails.append(["to_native-type", "co%d: to_native returned %s" % (i, type(n).__name__)])
+            continue
+        a, b = _native_dump(co), _native_dump(n)
+        for k in sorted(set(a) | set(b)):
+            if a.get(k) != b.get(k):
+                fails.append(["field|%s" % k, "co%d %s: %s differs after round trip: %s -> %s" % (
+                    i, co.co_name, k, json.dumps(a.get(k))[:160], json.dumps(b.get(k))[:160])])
+                break
+        if _portable_dump(p) != before:
+            fails.append(["to_native-mutates-portable", "co%d: portable object changed by to_native()" % i])
+        # replace()
+        for field, val in req.get("replace", []):
+            if not hasattr(p, field):
+                continue
+            newv = uncanon(val)
+            b4 = _portable_dump(p)
+            try:
+                q = p.replace(**{field: newv})
+            except Exception as e:
+                fails.append(["replace-raised|%s|%s" % (field, type(e).__name__), "co%d: replace(%s=...) raised %s" % (i, field, e)])
+                continue
+            after = _portable_dump(p)
+            qd = _portable_dump(q)
+            if after != b4:
+                fails.append(["replace-mutates-original|%s" % field, "co%d: original changed by replace(%s=...)" % (i, field)])
+            if q is p:
+                fails.append(["replace-returns-self|%s" % field, "co%d: replace returned the same object" % i])
+            if qd.get(field) != xcanon(newv, False):
+                fails.append(["replace-field-not-set|%s" % field, "co%d: replace(%s=%r) gives %s" % (i, field, newv, qd.get(field))])
+            for k in b4:
+                if k != field and qd.get(k) != b4[k]:
+                    fails.append(["replace-other-field-changed|%s" % field, "co%d: replace(%s=...) changed %s" % (i, field, k)])
+                    break
+            # deep independence: mutating a list field of the copy must not touch the original
+    return {"fails": fails, "codes": infos, "portable_class": want_cls}
+
+
 def exec_objects(req, use_xdis):
     raise NotImplementedError
 
